@@ -15,6 +15,8 @@ from .. import uscan
 
 
 def run(ctx):
+    from .configtime import no_identity_test_against_literals as _no_is_literal
+    _no_is_literal(ctx, 'C15.R1', classes=('Recipe', 'RecipeStep'))
     from .configtime import no_shared_mutable_defaults as _mutdef
     _mutdef(ctx, 'C15.R4', classes=('Recipe', 'RecipeStep'))
     from .configtime import precision_zero_is_a_value as _prec0
